@@ -297,4 +297,139 @@ theorem scores_eq (t p : List Int) (s : Scores) (h : f1Scores t p = .ok s) (l : 
       field_simp
       ring
 
+/-! ### averages -/
+
+theorem scoresOf_f1_length (C : List (List Nat)) : (scoresOf C).f1.length = C.length := by
+  unfold scoresOf
+  simp
+
+/-- ★ the macro average is the mean of the per-label F1 of the confusion matrix -/
+theorem macro_eq (t p : List Int) (x : Rat) (h : averageF1 t p .macro = .ok x) :
+    x = Spec.macroDef (Spec.conf t p) (nLabels t p) := by
+  unfold averageF1 at h
+  simp only at h
+  cases hs : f1Scores t p with
+  | error e => rw [hs] at h; cases h
+  | ok s =>
+    rw [hs] at h
+    simp only [Except.map, Except.ok.injEq] at h
+    have hsc := scores_eq t p s hs
+    have hlen : s.f1.length = nLabels t p := by
+      unfold f1Scores at hs
+      cases hc : confusion t p with
+      | error e => rw [hc] at hs; cases hs
+      | ok C =>
+        rw [hc] at hs
+        simp only [Except.map] at hs
+        injection hs with hs
+        rw [← hs, scoresOf_f1_length, confusion_length t p C hc]
+    have hlist : s.f1 = (List.range (nLabels t p)).map fun l => Spec.f1Def (Spec.conf t p) (nLabels t p) l := by
+      apply List.ext_getElem
+      · simp [hlen]
+      · intro l h1 h2
+        have hl : l < nLabels t p := by rw [← hlen]; exact h1
+        have := (hsc l hl).2.2
+        rw [List.getD_eq_getElem?_getD, List.getElem?_eq_getElem h1] at this
+        simp only [Option.getD_some] at this
+        rw [this]
+        simp
+    unfold Spec.macroDef
+    rw [← h, hlen, hlist]
+    rfl
+
+theorem filter_fst_zip (t p : List Int) (hlen : t.length = p.length) (f : Int → Bool) :
+    ((t.zip p).filter fun x => f x.1).length = (t.filter f).length := by
+  induction t generalizing p with
+  | nil => simp
+  | cons a as ih =>
+    cases p with
+    | nil => simp at hlen
+    | cons b bs =>
+      simp only [List.zip_cons_cons, List.filter_cons]
+      have := ih bs (by simpa using hlen)
+      split <;> simp [this]
+
+/-- when every sample with a non-negative true label has a non-negative prediction, the weighted average of the
+    code is the confusion-matrix value (weights = row sums) -/
+theorem weighted_eq_of_all_predicted (t p : List Int) (x : Rat) (hlen : t.length = p.length)
+    (hall : ∀ y ∈ t.zip p, 0 ≤ y.1 → 0 ≤ y.2) (h : averageF1 t p .weighted = .ok x) :
+    x = Spec.weightedDef (Spec.conf t p) (nLabels t p) := by
+  unfold averageF1 at h
+  simp only at h
+  cases hs : f1Scores t p with
+  | error e => rw [hs] at h; cases h
+  | ok s =>
+    rw [hs] at h
+    simp only [bind, Except.bind, pure, Except.pure, Except.ok.injEq] at h
+    have hsc := scores_eq t p s hs
+    have hlenf : s.f1.length = nLabels t p := by
+      unfold f1Scores at hs
+      cases hc : confusion t p with
+      | error e => rw [hc] at hs; cases hs
+      | ok C =>
+        rw [hc] at hs
+        simp only [Except.map] at hs
+        injection hs with hs
+        rw [← hs, scoresOf_f1_length, confusion_length t p C hc]
+    -- masked pairs with first component i are all pairs with first component i
+    have hmask : ∀ i : Nat, ((masked t p).filter fun y => y.1 == (i : Int)).length =
+        (t.filter fun a => a == (i : Int)).length := by
+      intro i
+      rw [← filter_fst_zip t p hlen (fun a => a == (i : Int))]
+      unfold masked
+      rw [List.filter_filter]
+      congr 1
+      apply List.filter_congr
+      intro y hy
+      by_cases he : y.1 = (i : Int)
+      · have h0 : (0 : Int) ≤ y.1 := by omega
+        have h1 := hall y hy h0
+        simp [he, h1]
+      · simp [he]
+    have hrows : ∀ i, i < nLabels t p → Spec.rowSum (Spec.conf t p) (nLabels t p) i =
+        ((t.filter (0 ≤ ·)).filter fun a => a == (i : Int)).length := by
+      intro i _
+      have h1 : Spec.rowSum (Spec.conf t p) (nLabels t p) i =
+          ((masked t p).filter fun y => y.1 == (i : Int)).length := by
+        unfold Spec.rowSum
+        have hin : ∀ j, j ∈ List.range (nLabels t p) → Spec.conf t p i j =
+            (((masked t p).filter fun x => x.1 == (i : Int)).filter fun x => x.2 == (j : Int)).length := by
+          intro j _
+          rw [← conf_masked, List.filter_filter]
+          congr 1
+          apply List.filter_congr
+          intro x _
+          exact Bool.and_comm _ _
+        rw [List.map_congr_left hin]
+        refine sum_fibres ((masked t p).filter fun x => x.1 == (i : Int)) (fun x => x.2) (nLabels t p) ?_
+        intro x hx
+        exact (masked_range t p x (List.mem_filter.mp hx).1).2
+      rw [h1, hmask, List.filter_filter]
+      congr 1
+      apply List.filter_congr
+      intro a _
+      by_cases he : a = (i : Int)
+      · have : (0 : Int) ≤ a := by omega
+        simp [he]
+      · simp [he]
+    have htot : Spec.total (Spec.conf t p) (nLabels t p) = (t.filter (0 ≤ ·)).length := by
+      rw [total_eq]
+      rw [← filter_fst_zip t p hlen (fun a => decide (0 ≤ a))]
+      unfold masked
+      congr 1
+      apply List.filter_congr
+      intro y hy
+      by_cases h0 : 0 ≤ y.1
+      · simp [h0, hall y hy h0]
+      · simp [h0]
+    unfold Spec.weightedDef
+    rw [← h, hlenf, htot]
+    congr 1
+    unfold tab
+    congr 1
+    apply List.map_congr_left
+    intro l hl
+    have hl' := List.mem_range.mp hl
+    rw [(hsc l hl').2.2, hrows l hl', tab_getD, if_pos hl']
+
 end SkNet.ClassMetrics
